@@ -4,7 +4,7 @@ import math
 
 import envelope as E
 import pipegen as G
-from common import run_model, enc, unbits, same_float, rel_close, is_real_finite
+from common import run_model, enc, unbits, same_float, rel_close, is_real_finite, tie_equal_vec
 
 ID = 'C09'
 LEAN_MODULES = ['Dhlldv.Props.C09']
@@ -58,7 +58,7 @@ def correspondence(ctx):
     for (pl, Q, want), o in zip(metas, outs):
         ctx.count('corr_compared')
         got = [unbits(x) for x in o.split(' ')]
-        if not all(same_float(a, b) for a, b in zip(got, want)):
+        if not tie_equal_vec(ctx, got, want):
             ctx.mismatch('Spec.Pipe.sysHead differs from calc_system_head', {'pipeline': G.describe(pl), 'Q': Q}, got, list(want))
     if metas:
         ctx.sample({'pipeline': G.describe(metas[0][0]), 'Q': metas[0][1]})
